@@ -8,6 +8,7 @@ import (
 	"sort"
 	"strconv"
 	"strings"
+	"sync"
 
 	"github.com/gogo/protobuf/proto"
 	dbm "github.com/tendermint/tm-db"
@@ -68,6 +69,61 @@ func (g guardTx) AddBatch(b *txindex.Batch) error {
 	return g.TxIndex.AddBatch(b)
 }
 
+// stallDB is the index database with a fault: while armed (after `passes` more batch writes have
+// gone through) every batch Write/WriteSync parks until the simulator releases it - the index DB
+// of a node that is slower than block production (block sync, handshake replay, a busy disk).
+type stallDB struct {
+	dbm.DB
+	mu     sync.Mutex
+	armed  bool
+	passes int
+	gate   chan struct{}
+	hits   int
+}
+
+type stallBatch struct {
+	dbm.Batch
+	d *stallDB
+}
+
+func (d *stallDB) NewBatch() dbm.Batch { return &stallBatch{Batch: d.DB.NewBatch(), d: d} }
+
+func (d *stallDB) wait() {
+	var g chan struct{}
+	d.mu.Lock()
+	if d.armed {
+		if d.passes > 0 {
+			d.passes--
+		} else {
+			g = d.gate
+			d.hits++
+		}
+	}
+	d.mu.Unlock()
+	if g != nil {
+		<-g // never parked while holding a lock
+	}
+}
+
+func (b *stallBatch) Write() error     { b.d.wait(); return b.Batch.Write() }
+func (b *stallBatch) WriteSync() error { b.d.wait(); return b.Batch.WriteSync() }
+
+func (d *stallDB) isArmed() bool {
+	d.mu.Lock()
+	defer d.mu.Unlock()
+	return d.armed
+}
+
+// blockJob is one committed block handed to the publisher goroutine (the stand-in for the block
+// executor, which fires the events of one block after the other).
+type blockJob struct {
+	b      *blockRec
+	txs    []*txRec
+	npub   int
+	valupd bool
+	done   chan struct{}
+}
+
 type isim struct {
 	env *simcore.Env
 	cfg simcore.Op
@@ -90,6 +146,10 @@ type isim struct {
 	wedged   bool
 	nsub     int
 
+	db         *stallDB
+	jobs       chan *blockJob
+	pending    []*blockJob     // published (or queued) blocks whose indexing has not been verified yet
+	stallOps   int             // actions since the index DB was armed to stall
 	postPoison int             // blocks published after the ill-typed bundle
 	slashKeys  map[string]bool // composite keys under which an indexed tx attribute value contains "/"
 }
@@ -101,7 +161,10 @@ func newIndexSim(env *simcore.Env, cfg simcore.Op) simcore.Sim {
 	if err := s.bus.Start(); err != nil {
 		panic(err)
 	}
-	store := dbm.NewMemDB()
+	s.db = &stallDB{DB: dbm.NewMemDB()}
+	var store dbm.DB = s.db
+	s.jobs = make(chan *blockJob, 1024)
+	go s.publisher()
 	s.txi = txkv.NewTxIndex(store)
 	s.bli = blockkv.New(dbm.NewPrefixDB(store, []byte("block_events")))
 	s.svc = txindex.NewIndexerService(guardTx{s.txi, s}, s.bli, s.bus, false)
@@ -395,7 +458,22 @@ func (s *isim) Next(rng *simcore.RNG) simcore.Op {
 		return nil
 	}
 	s.opsLeft--
-	w := []int{30, 35, 4, 0, 0}
+	if s.db.isArmed() {
+		// the index DB stalls: the schedule decides how many (mostly empty) blocks are committed meanwhile
+		s.stallOps++
+		if s.stallOps > 6 || rng.Bool(0.3) {
+			return simcore.Op{"a": "release"}
+		}
+		op := s.genBlock(rng)
+		if rng.Bool(0.7) {
+			op["txs"] = nil
+		}
+		return op
+	}
+	w := []int{30, 35, 4, 0, 0, 0}
+	if s.cfg.Bool("stall") && s.height > 0 {
+		w[5] = 7
+	}
 	if s.poisoned && s.env.IsKnown("C19", "lost-foreign-type-mismatch") {
 		// what happens after an ill-typed bundle depends on map order once that defect is listed as
 		// known (the run carries on): exactly three more blocks, no searches, so that the trace stays
@@ -403,10 +481,10 @@ func (s *isim) Next(rng *simcore.RNG) simcore.Op {
 		if s.postPoison >= 3 {
 			return nil
 		}
-		w = []int{1, 0, 0, 0, 0}
+		w = []int{1, 0, 0, 0, 0, 0}
 	}
 	if s.height == 0 {
-		w = []int{1, 0, 0, 0, 0}
+		w = []int{1, 0, 0, 0, 0, 0}
 	}
 	if s.cfg.Bool("foreign") && s.nsub < 6 {
 		w[3] = 5
@@ -416,21 +494,7 @@ func (s *isim) Next(rng *simcore.RNG) simcore.Op {
 	}
 	switch rng.Weighted(w) {
 	case 0:
-		op := simcore.Op{"a": "block", "begin": s.genIdxEvents(rng, 2), "end": s.genIdxEvents(rng, 2), "valupd": rng.Bool(0.1)}
-		n := rng.Intn(s.cfg.Int("maxtx") + 1)
-		if s.poisoned && n == 0 {
-			n = 1
-		}
-		var txs []simcore.Op
-		for i := 0; i < n; i++ {
-			t := simcore.Op{"ev": s.genIdxEvents(rng, 3), "code": 0}
-			if rng.Bool(0.15) {
-				t["code"] = rng.Range(1, 5)
-			}
-			txs = append(txs, t)
-		}
-		op["txs"] = txs
-		return op
+		return s.genBlock(rng)
 	case 1:
 		kind := []string{"tx", "tx", "block"}[rng.Intn(3)]
 		return simcore.Op{"a": "search", "kind": kind, "q": condsToOps(s.genSearch(rng, kind)), "tight": rng.Bool(0.3)}
@@ -448,10 +512,32 @@ func (s *isim) Next(rng *simcore.RNG) simcore.Op {
 			cs = append([]cond{{"tm.event", "=", "s", []string{"Tx", "NewBlock", "NewBlockHeader"}[rng.Intn(3)]}}, cs...)
 		}
 		return simcore.Op{"a": "fsub", "q": condsToOps(cs), "cap": []int{1, 2, 100}[rng.Intn(3)]}
-	default:
+	case 4:
 		b := genPoisonBase(rng, false, "tm.event")
 		return simcore.Op{"a": "psub", "base": b.op(), "m": 6, "cap": canaryCap}
+	default:
+		// "after": how many batch writes still go through before the DB stalls (0: the block index
+		// write of the next block, 1: the tx index write of the next block, ...)
+		return simcore.Op{"a": "stall", "after": []int{0, 0, 1, 2}[rng.Intn(4)]}
 	}
+}
+
+func (s *isim) genBlock(rng *simcore.RNG) simcore.Op {
+	op := simcore.Op{"a": "block", "begin": s.genIdxEvents(rng, 2), "end": s.genIdxEvents(rng, 2), "valupd": rng.Bool(0.1)}
+	n := rng.Intn(s.cfg.Int("maxtx") + 1)
+	if s.poisoned && n == 0 {
+		n = 1
+	}
+	var txs []simcore.Op
+	for i := 0; i < n; i++ {
+		t := simcore.Op{"ev": s.genIdxEvents(rng, 3), "code": 0}
+		if rng.Bool(0.15) {
+			t["code"] = rng.Range(1, 5)
+		}
+		txs = append(txs, t)
+	}
+	op["txs"] = txs
+	return op
 }
 
 // ---------------------------------------------------------------- apply
@@ -467,12 +553,29 @@ func (s *isim) Apply(op simcore.Op) bool {
 		return false
 	}
 	e := s.env
+	busy := s.db.isArmed() || len(s.pending) > 0 // indexing is (legitimately) behind the chain
 	switch op.Kind() {
 	case "block":
 		s.applyBlock(op)
+	case "stall":
+		if busy || op.Int("after") < 0 {
+			return false
+		}
+		s.db.mu.Lock()
+		s.db.armed, s.db.passes, s.db.gate = true, op.Int("after"), make(chan struct{})
+		s.db.mu.Unlock()
+		s.stallOps = 0
+		e.Count("op.stall")
+	case "release":
+		if !s.db.isArmed() {
+			return false
+		}
+		s.release()
+		s.settleAndVerify()
+		e.Count("op.release")
 	case "search":
 		cs := condsFromOps(op.Subs("q"))
-		if len(cs) == 0 || s.height == 0 {
+		if len(cs) == 0 || s.height == 0 || busy {
 			return false
 		}
 		if op.Str("kind") == "block" {
@@ -481,10 +584,13 @@ func (s *isim) Apply(op simcore.Op) bool {
 			s.searchTxs(cs, op.Bool("tight"))
 		}
 	case "get":
+		if busy {
+			return false
+		}
 		s.applyGet(op)
 	case "fsub":
 		cs := condsFromOps(op.Subs("q"))
-		if len(cs) == 0 || op.Int("cap") <= 0 {
+		if len(cs) == 0 || op.Int("cap") <= 0 || busy {
 			return false
 		}
 		if !s.subscribe(renderQuery(cs, false), op.Int("cap")) {
@@ -493,7 +599,7 @@ func (s *isim) Apply(op simcore.Op) bool {
 		e.Count("op.foreign_sub")
 	case "psub":
 		base := condsFromOps([]simcore.Op{op.Sub("base")})
-		if len(base) != 1 || base[0].Key == "" || op.Int("m") <= 0 || op.Int("cap") <= 0 {
+		if len(base) != 1 || base[0].Key == "" || op.Int("m") <= 0 || op.Int("cap") <= 0 || busy {
 			return false
 		}
 		any := false
@@ -511,7 +617,7 @@ func (s *isim) Apply(op simcore.Op) bool {
 	default:
 		return false
 	}
-	e.State(op.Kind(), int(s.height)%5, len(s.txs)%7, s.poisoned, s.nsub)
+	e.State(op.Kind(), int(s.height)%5, len(s.txs)%7, s.poisoned, s.nsub, s.db.isArmed(), len(s.pending))
 	return true
 }
 
@@ -558,55 +664,100 @@ func (s *isim) applyBlock(op simcore.Op) {
 		r.attrs["tx.hash"] = []string{fmt.Sprintf("%X", r.hash)}
 		txs = append(txs, r)
 	}
-	// publish in the order state/execution.go fireEvents uses
-	begin, end := abci.ResponseBeginBlock{Events: toABCI(b.begin)}, abci.ResponseEndBlock{Events: toABCI(b.end)}
-	hdr := types.Header{Height: h, ChainID: "sim"}
-	done := make(chan struct{})
-	npub := 2 + len(txs)
-	go func() {
-		_ = s.bus.PublishEventNewBlock(types.EventDataNewBlock{Block: &types.Block{Header: hdr}, ResultBeginBlock: begin, ResultEndBlock: end})
-		_ = s.bus.PublishEventNewBlockHeader(types.EventDataNewBlockHeader{Header: hdr, NumTxs: int64(len(txs)), ResultBeginBlock: begin, ResultEndBlock: end})
-		for _, r := range txs {
-			_ = s.bus.PublishEventTx(types.EventDataTx{TxResult: abci.TxResult{Height: h, Index: r.index, Tx: r.tx,
-				Result: abci.ResponseDeliverTx{Code: r.code, Events: toABCI(r.events)}}})
-		}
-		if op.Bool("valupd") {
-			_ = s.bus.PublishEventValidatorSetUpdates(types.EventDataValidatorSetUpdates{})
-		}
-		close(done)
-	}()
-	if op.Bool("valupd") {
-		npub++
+	job := &blockJob{b: b, txs: txs, npub: 2 + len(txs), valupd: op.Bool("valupd"), done: make(chan struct{})}
+	if job.valupd {
+		job.npub++
 	}
-	e.Settle()
-	s.npubs += npub
 	s.blocks = append(s.blocks, b)
 	s.txs = append(s.txs, txs...)
+	s.pending = append(s.pending, job)
 	e.Count("op.block")
 	e.Add("op.tx", int64(len(txs)))
+	if len(txs) == 0 {
+		e.Count("op.empty_block")
+	}
 	if s.poisoned {
 		s.postPoison++
 	}
-	wedged := false
-	select {
-	case <-done:
-	default:
-		wedged = true
+	if s.db.isArmed() {
+		e.Count("probe.block_while_index_db_stalls")
+		if len(txs) == 0 {
+			e.Count("probe.empty_block_while_index_db_stalls")
+		}
 	}
-	// other subscribers must not be affected (same oracle as pubsub mode, counts only): every
-	// canary holds every event published so far; while the publisher is stuck they must at least agree
+	s.jobs <- job
+	s.settleAndVerify()
+}
+
+// publisher fires the events of one block after the other, in the order state/execution.go
+// fireEvents uses. It may park inside a Publish call while the indexer service is busy.
+func (s *isim) publisher() {
+	for j := range s.jobs {
+		h := j.b.height
+		begin, end := abci.ResponseBeginBlock{Events: toABCI(j.b.begin)}, abci.ResponseEndBlock{Events: toABCI(j.b.end)}
+		hdr := types.Header{Height: h, ChainID: "sim"}
+		_ = s.bus.PublishEventNewBlock(types.EventDataNewBlock{Block: &types.Block{Header: hdr}, ResultBeginBlock: begin, ResultEndBlock: end})
+		_ = s.bus.PublishEventNewBlockHeader(types.EventDataNewBlockHeader{Header: hdr, NumTxs: int64(len(j.txs)), ResultBeginBlock: begin, ResultEndBlock: end})
+		for _, r := range j.txs {
+			_ = s.bus.PublishEventTx(types.EventDataTx{TxResult: abci.TxResult{Height: h, Index: r.index, Tx: r.tx,
+				Result: abci.ResponseDeliverTx{Code: r.code, Events: toABCI(r.events)}}})
+		}
+		if j.valupd {
+			_ = s.bus.PublishEventValidatorSetUpdates(types.EventDataValidatorSetUpdates{})
+		}
+		close(j.done)
+	}
+}
+
+// release ends the stall of the index DB.
+func (s *isim) release() {
+	s.db.mu.Lock()
+	if s.db.armed {
+		s.db.armed = false
+		close(s.db.gate)
+		if s.db.hits > 0 {
+			s.env.Add("fault.index_db_write_stalled", int64(s.db.hits))
+		}
+		s.db.hits = 0
+	}
+	s.db.mu.Unlock()
+}
+
+// settleAndVerify: at quiescence, with the index DB not stalling, every block handed to the
+// publisher has been published completely, reached every canary, and is indexed. While the DB is
+// armed to stall the publisher and the indexer may legitimately be parked: checks wait for the release.
+func (s *isim) settleAndVerify() {
+	e := s.env
+	e.Settle()
 	for _, b := range s.bundle {
 		for len(b.Out()) > 0 {
 			<-b.Out()
 		}
 	}
-	if len(s.canaries) > 0 {
-		for j, c := range s.canaries {
-			for len(c.Out()) > 0 {
-				<-c.Out()
-				s.canGot[j]++
+	for j, c := range s.canaries {
+		for len(c.Out()) > 0 {
+			<-c.Out()
+			s.canGot[j]++
+		}
+	}
+	if s.db.isArmed() {
+		return
+	}
+	var stuck *blockJob
+	for _, j := range s.pending {
+		select {
+		case <-j.done:
+			s.npubs += j.npub
+		default:
+			if stuck == nil {
+				stuck = j
 			}
 		}
+	}
+	// other subscribers must not be affected (same oracle as pubsub mode, counts only): every
+	// canary holds every event published so far. (While the publisher is stuck inside a publication
+	// the canaries legitimately disagree - the server has visited a map-order dependent part of them.)
+	if len(s.canaries) > 0 && stuck == nil {
 		lo, hi := s.canGot[0], s.canGot[0]
 		for _, n := range s.canGot {
 			if n < lo {
@@ -615,7 +766,7 @@ func (s *isim) applyBlock(op simcore.Op) {
 				hi = n
 			}
 		}
-		if lo != hi || (!wedged && lo != s.npubs) {
+		if lo != hi || lo != s.npubs {
 			sig := "lost-msg"
 			if s.poisoned {
 				sig = "lost-foreign-type-mismatch"
@@ -623,21 +774,25 @@ func (s *isim) applyBlock(op simcore.Op) {
 			if hi > s.npubs {
 				sig = "phantom-msg"
 			}
-			e.Fail("C19", sig, "after block %d subscribers with query \"tm.event EXISTS\" (capacity %d) hold between %d and %d of the %d events published and were not told they were cancelled", h, canaryCap, lo, hi, s.npubs)
+			e.Fail("C19", sig, "at height %d subscribers with query \"tm.event EXISTS\" (capacity %d) hold between %d and %d of the %d events published and were not told they were cancelled", s.height, canaryCap, lo, hi, s.npubs)
 		}
 	}
-	if wedged {
+	if stuck != nil {
 		s.wedged = true
-		e.Fail("C19", s.idxSig("publish-blocked"), "publishing the events of block %d (%d txs) never completes: the event bus is stuck (the indexer service stopped reading its unbuffered subscriptions)", h, len(txs))
+		e.Fail("C19", s.idxSig("publish-blocked"), "publishing the events of block %d (%d txs) never completes although the index DB is not stalling: the event bus is stuck (the indexer service stopped reading its unbuffered subscriptions)", stuck.b.height, len(stuck.txs))
 		return
 	}
 	if e.Failed() { // reported by the guard from the indexer goroutine: unwind (the first report wins)
 		e.Fail("C19", s.idxSig("indexer-batch-hole"), "see the report of the indexer goroutine")
 	}
-	if s.broken {
-		return
+	pend := s.pending
+	s.pending = nil
+	for _, j := range pend {
+		if s.broken {
+			return
+		}
+		s.checkIndexed(j.b, j.txs)
 	}
-	s.checkIndexed(b, txs)
 }
 
 func (s *isim) checkIndexed(b *blockRec, txs []*txRec) {
@@ -850,6 +1005,12 @@ func (s *isim) Finish() {
 	if s.broken || s.wedged || (s.poisoned && s.env.IsKnown("C19", "lost-foreign-type-mismatch")) {
 		return
 	}
+	// eventually: the DB is released and the service drains
+	s.release()
+	s.settleAndVerify()
+	if s.broken || s.wedged {
+		return
+	}
 	// every committed block and tx is (still) indexed
 	for _, b := range s.blocks {
 		var txs []*txRec
@@ -871,6 +1032,8 @@ func (s *isim) Finish() {
 }
 
 func (s *isim) Close() {
+	s.release()
+	close(s.jobs)
 	go func() {
 		_ = s.svc.Stop()
 		_ = s.bus.Stop()
